@@ -129,6 +129,9 @@ class C18(Harness):
                     # one call carrying the same new key twice (a sequence of pairs): the later pair wins, as for a dict
                     ops.append(['update', [[nk[0], enc(fresh[0])], [nk[0], enc(fresh[1])]], 'pairs'])
                 if nk:
+                    # an update that fails part-way (malformed trailing element): what was applied before it shows in every view alike
+                    ops.append(['update', [[nk[0], enc(x)]], 'pairs', 'bad'])
+                if nk:
                     ops.append(['updatekw', nk[-1], enc(x)])
             if keys:
                 ops.append(['pop'])
@@ -283,6 +286,12 @@ class C18(Harness):
             o[op[1]] = dec(op[2])
             return None
         if kind == 'update':
+            if len(op) > 3:
+                try:
+                    o.update([(k, dec(v)) for k, v in op[1]] + [(1, 2, 3)])
+                except (ValueError, TypeError):
+                    return None
+                raise AssertionError('update accepted a malformed element')
             if len(op) > 2:
                 return o.update([(k, dec(v)) for k, v in op[1]])
             return o.update({k: dec(v) for k, v in op[1]})
@@ -381,6 +390,10 @@ class C18(Harness):
         vs = self.check_state(cfg, w, model, 0, 'init') if not history else []
         for i, op in enumerate(history, 1):
             last = i == len(history)
+            if last:
+                # every view has been looked at in the state the last operation starts from (as the search did when it reached that
+                # state): anything a view caches must be brought up to date by the operation
+                self.observe(cfg, w)
             del w['log'][:]
             new_model, exp_ret, mutates = self.model_step(cfg, model, op)
             if op[0] == 'assign':
@@ -408,7 +421,9 @@ class C18(Harness):
                         # the event shows the name mapping: a mutation that only touches un-named entries shows a changes-only watcher nothing new
                         named = lambda mm: [(k, v) for k, v in mm.items() if isinstance(k, str)]
                         changed = named(new_model) != named(model)
-                    if len(w['log']) != 1 and (changed or len(w['log']) > 1):
+                    if len(op) > 3 and op[0] == 'update':
+                        pass        # a failing mutation: how often it notifies is not fixed by the statement
+                    elif len(w['log']) != 1 and (changed or len(w['log']) > 1):
                         vs.append(V('objects-watcher-once', '%s notified the objects watcher %d times' % (op, len(w['log'])),
                                     op=op[0], style=cfg['style'], calls=len(w['log'])))
                     else:
